@@ -83,6 +83,15 @@ EXTRA_AUDIT = ("HedVerif.Props.C16Closed", [
     "HedVerif.C16.chain_map",
     "HedVerif.C16.file_judged_with_merged_sidecar_closed",
     "HedVerif.C16.two_subject_example_closed",
+    "HedVerif.C16.raw_table_step",
+    "HedVerif.C16.dataset_closed_raw_is_union",
+    "HedVerif.C16.dataset_closed_raw_is_union_tree",
+    "HedVerif.C16.dataset_closed_raw_total",
+    "HedVerif.C16.excluded_files_silent_raw",
+    "HedVerif.C16.file_judged_with_merged_sidecar_closed_raw",
+    "HedVerif.C16.two_subject_example_closed_raw",
+    "HedVerif.C16.readCell_spec",
+    "HedVerif.C16.readTable_header",
 ])
 
 
@@ -116,6 +125,17 @@ def extract_defaults():
                and n.func.attr == "add_argument" and any(isinstance(a, ast.Constant) and a.value == "--format" for a in n.args))
     choices = ast.literal_eval(next(k.value for k in fmt.keywords if k.arg == "choices"))
     lst = lambda xs: "[" + ", ".join(_chars(x) for x in xs) + "]"
+    # how an events file is read: the literal keyword arguments of the read_csv call in BaseInput, and pandas' own
+    # default NA spellings when keep_default_na is set
+    bi = ast.parse((REPO / "hed/models/base_input.py").read_text())
+    rc = next(n for n in ast.walk(bi) if isinstance(n, ast.Call) and isinstance(n.func, ast.Attribute) and n.func.attr == "read_csv")
+    kw = {k.arg: ast.literal_eval(k.value) for k in rc.keywords if k.arg in ("keep_default_na", "na_values", "dtype", "delimiter")
+          and isinstance(k.value, (ast.Constant, ast.Tuple, ast.List))}
+    na = set(kw.get("na_values") or ())
+    if kw.get("keep_default_na", True):
+        from pandas._libs.parsers import STR_NA_VALUES
+        na |= set(STR_NA_VALUES)
+    na = sorted(na)
     text = ("/- GENERATED by harness/props/c16.py (extract_defaults) from hed/tools/bids/bids_dataset.py,\n"
             "   hed/tools/bids/bids_file_group.py and hed/scripts/hed_validator.py.  Do not edit. -/\n"
             "namespace HedVerif.Generated.C16\n\n"
@@ -127,7 +147,10 @@ def extract_defaults():
             f"[{', '.join(lst(o) for o in opts)}]\n"
             f"/-- `--format` choices -/\ndef cliFormats : List (List Char) := {lst(choices)}\n"
             f"/-- keyword arguments the CLI passes to `BidsDataset(path, ...)` (none: all defaults) -/\n"
-            f"def cliDatasetKeywords : List (List Char) := {lst(ctor_kw)}\n\nend HedVerif.Generated.C16\n")
+            f"def cliDatasetKeywords : List (List Char) := {lst(ctor_kw)}\n"
+            f"/-- cells that `BaseInput` reads as missing and replaces by \"n/a\": `na_values` of its `read_csv` call"
+            f" and pandas' default NA spellings (`keep_default_na`), then `fillna(\"n/a\")` -/\n"
+            f"def fileNaValues : List (List Char) := {lst(na)}\n\nend HedVerif.Generated.C16\n")
     write_if_changed(GEN / "C16Defaults.lean", text)
 
 
